@@ -475,7 +475,10 @@ func (l *State) setServiceStateLocked(s *ServiceState) {
 	key := s.Service.CompoundServiceID()
 	old, hasOld := l.services[key]
 	if hasOld {
-		s.InSync = s.Service.IsSame(old.Service)
+		// An unchanged definition is in sync only if the entry it replaces was: old.InSync is
+		// false after a failed or not yet attempted registration. old.Service is nil for the
+		// {Deleted: true} markers updateSyncState creates for services only the catalog knows.
+		s.InSync = old.InSync && !old.Deleted && old.Service != nil && s.Service.IsSame(old.Service)
 	}
 	l.services[key] = s
 
@@ -837,7 +840,8 @@ func (l *State) setCheckStateLocked(c *CheckState) {
 	id := c.Check.CompoundCheckID()
 	existing := l.checks[id]
 	if existing != nil {
-		c.InSync = c.Check.IsSame(existing.Check)
+		// see setServiceStateLocked: existing.Check is nil for remote-only markers
+		c.InSync = existing.InSync && !existing.Deleted && existing.Check != nil && c.Check.IsSame(existing.Check)
 		// If the existing check has a Defercheck, it needs to be
 		// assigned to the new check
 		if existing.DeferCheck != nil && c.DeferCheck == nil {
